@@ -340,6 +340,8 @@ package memberlist
 //@   ensures count [C11]: result2 == nil ==> result0 + len(result1) == entry(buf)[0]
 //@   ensures whole [C11]: result2 == nil && result0 == 0 ==> len(result1) == entry(buf)[0]
 
+//@ ghost $tried intmap      // decryptPayload: backing arrays of the keys handed to decryptMessage
+//@ ghost $opened bool
 //@ func decryptPayload(keys, msg, data)
 //@   safety [C13,C14]
 //@   ensures refuse-empty [C14]: len(msg) == 0 ==> result1 != nil
@@ -347,8 +349,22 @@ package memberlist
 //@   ensures refuse-short [C14]: len(msg) > 0 && len(msg) < 29 ==> result1 != nil
 //@   ensures refuse-nokeys [C14]: len(keys) == 0 ==> result1 != nil
 //@   loop #1 invariant same [C12]: len(msg) >= 29
+//@   at call encryptedLength: set $tried := zeromap()
+//@   at call encryptedLength: set $opened := false
+//@   at call decryptMessage: set $tried := upd($tried, arr(arg0), 1)
+//@   at call decryptMessage: set $opened := $opened || res1 == nil
+//@   loop #1 invariant tried [C14,C17]: !$opened && (forall i int :: 0 <= i && i <= rangeindex && i < len(keys) ==> $tried[arr(keys[i])] == 1)
+//@   ensures tries-every-key [C14,C17]: result1 != nil && !$opened && len(msg) >= 1 && old(msg[0]) <= 1 && len(msg) >= encLen(old(msg[0]), 0) ==> (forall i int :: 0 <= i && i < len(keys) ==> $tried[arr(keys[i])] == 1)     // "no installed key opens it" is said only after every installed key was tried
 //@   ensures plain-size-v1 [C12]: result1 == nil && old(msg[0]) == 1 ==> len(result0) == len(msg) - 29
 //@   ensures plain-size-v0 [C12]: result1 == nil && old(msg[0]) == 0 ==> len(result0) <= len(msg) - 29 && len(result0) >= len(msg) - 29 - 255
+
+// the associated data of a stream frame: first part then second part, nothing dropped
+//@ func appendBytes(first, second)
+//@   safety [C12,C13,C14]
+//@   bytes
+//@   ensures len [C12,C14]: len(result) == len(first) + len(second)
+//@   ensures head [C12,C14]: forall i int :: 0 <= i && i < len(first) ==> result[i] == first[i]
+//@   ensures tail [C12,C14]: forall i int :: 0 <= i && i < len(second) ==> result[len(first) + i] == second[i]
 
 //@ func decryptMessage(key, msg, data)
 //@   safety [C12,C13]
@@ -406,12 +422,17 @@ package memberlist
 //@   at call (*Memberlist).encodeAndSendMsg: assert ack-echoes-seq [C19]: msgType == ackRespMsg && typeIs(msg, *ackResp) && unbox(msg, *ackResp).SeqNo == p.SeqNo && (p.Node == "" || p.Node == m.config.Name)
 
 //@ ghost $relaySeq int
+//@ ghost $relayPort int
+//@ ghost $reqPort int
 //@ func (*Memberlist).handleIndirectPing(m, buf, from)
 //@   safety [C13,C19]
 //@   modular
 //@   requires ok: mlNet(m) && from != nil
 //@   at call (*Memberlist).nextSeqNo: set $relaySeq := res
+//@   at call decode: set $reqPort := ind.Port
+//@   at call joinHostPort #2: set $relayPort := arg1
 //@   at call (*Memberlist).setAckHandler: assert relay-registers-fresh-seq [C19]: seqNo == $relaySeq
+//@   at call (*Memberlist).encodeAndSendMsg: assert relay-pings-requested-port [C19]: m.config.ProtocolVersion >= 2 && $reqPort != 0 ==> $relayPort == $reqPort     // from protocol version 2 on the request carries the target's port
 //@   at call (*Memberlist).setAckHandler: assert relay-expires-with-probe [C19]: timeout == m.config.ProbeTimeout     // the pending record is dropped when the nack is due
 //@   at call (*Memberlist).encodeAndSendMsg: assert relay-pings-with-fresh-seq [C19]: msgType == pingMsg && typeIs(msg, *ping) && unbox(msg, *ping).SeqNo == $relaySeq && unbox(msg, *ping).Node == ind.Node
 
@@ -597,7 +618,7 @@ package memberlist
 //@   requires ok: mlNet(m) && m.config.Keyring != nil
 //@   at call (*Memberlist).encryptionVersion: set $vsnS := res
 //@   at call (encoding/binary.bigEndian).PutUint32: assert len-field [C12]: len(sendBuf) <= 4000000000 ==> v == encLen($vsnS, len(sendBuf))
-//@   at call encryptPayload: assert aad-header [C12]: len(data) == 5 + len(streamLabel)
+//@   at call encryptPayload: assert aad-header [C12,C14]: len(data) == 5 + len(streamLabel)
 //@   ensures framed [C12]: result1 == nil ==> len(result0) == 5 + encLen($vsnS, len(sendBuf))
 //@   at call (*Keyring).GetPrimaryKey: set $encErr := 1
 //@   at call (*Keyring).GetPrimaryKey: set $primary := res
@@ -822,9 +843,12 @@ package memberlist
 //@ ghost $strLabel string
 //@ ghost $streamErr int
 //@ atomic Memberlist.pushPullReq rely stable
+//@ ghost $deadlineArmed bool
 //@ func (*Memberlist).handleConn(m, conn)
 //@   safety [C13]
 //@   requires ok: mlNet(m) && conn != nil
+//@   at call net.Conn.SetDeadline: set $deadlineArmed := true
+//@   at call RemoveLabelHeaderFromStream: assert deadline-first [C13]: $deadlineArmed      // nothing is read from an accepted stream before its deadline is armed
 //@   at call RemoveLabelHeaderFromStream: set $strLabel := res1
 //@   at call (*Memberlist).readStream: set $streamErr := res3
 //@   at call (*Memberlist).rawSendMsgStream: assert tcp-ack-only-for-us [C03,C19]: $streamErr != 0 || p.Node == "" || p.Node == m.config.Name
@@ -852,7 +876,7 @@ package memberlist
 //@   safety [C12,C13,C14]
 //@   modular
 //@   requires ok: mlNet(m) && bufConn != nil && m.config.Keyring != nil
-//@   at call decryptPayload: assert body-as-announced [C12]: len(msg) == moreBytes && len(data) == 5 + len(streamLabel)
+//@   at call decryptPayload: assert body-as-announced [C12,C14]: len(msg) == moreBytes && len(data) == 5 + len(streamLabel)
 //@   at call io.CopyN #2: assert cap-cipher [C13]: arg2 <= maxPushStateBytes
 //@   at call io.CopyN #1: set $bodyRead := false
 //@   at call io.CopyN #2: set $bodyRead := true
@@ -1075,6 +1099,13 @@ package memberlist
 //@   ensures-internal health-falls-only-after-send [C19]: *awarenessDelta == 0 - 1 ==> $sendErr == 0
 //@   ensures-internal health-delta-range [C19]: *awarenessDelta >= 0 - 1
 
+// the TCP fallback of a probe runs in its own goroutine: it may use only what is left of the probe's deadline
+//@ func (*Memberlist).probeNode$3()
+//@   safety [C03,C19]
+//@   requires ok: mlNet(m) && node != nil && fallbackCh != nil && !closed(fallbackCh)
+//@   at call time.Until: set $remaining := res
+//@   at call NodeAwareTransport.DialAddressTimeout: assert dial-within-deadline [C03,C19]: arg1 == $remaining
+
 //@ func (*awareness).ScaleTimeout(a, timeout)
 //@   safety [C03,C19]
 //@   requires nn: a != nil
@@ -1264,8 +1295,9 @@ package memberlist
 //@   safety [C20]
 //@   requires ok: mlNet(m)
 //@ func (*Memberlist).ProtocolVersion(m)
-//@   safety [C20]
+//@   safety [C19,C20]
 //@   requires ok: mlNet(m)
+//@   ensures is [C19,C20]: result == m.config.ProtocolVersion
 //@ func (*Memberlist).Ping(m, node, addr)
 //@   safety [C19,C20]
 //@   requires ok: mlNet(m) && addr != nil
